@@ -685,8 +685,100 @@ def t3_file_modes():
     return {"FileModes.lean": txt}
 
 
+# ---------------------------------------------------------------------------------------
+# T8  NIRGraph.from_list: the naming function `unique_node_name` (f-string and counter step)
+# ---------------------------------------------------------------------------------------
+def t8_unique_name():
+    item = "T8"
+    tree = ast.parse(_src("nir/ir/graph.py"))
+    fl = _find_func(tree, "from_list", "NIRGraph")
+    if fl is None:
+        raise Refusal(item, "NIRGraph.from_list not found")
+    inner = [n for n in fl.body if isinstance(n, ast.FunctionDef) and n.name == "unique_node_name"]
+    if len(inner) != 1:
+        raise Refusal(item, "from_list does not define unique_node_name")
+    fn = inner[0]
+    if [a.arg for a in fn.args.args] != ["node", "counts"]:
+        raise Refusal(item, f"unique_node_name parameters: {[a.arg for a in fn.args.args]}")
+    body = [st for st in fn.body if not (isinstance(st, ast.Expr) and isinstance(st.value, ast.Constant))]
+    if len(body) != 5:
+        raise Refusal(item, f"unique_node_name has {len(body)} statements, expected 5")
+    want0 = "Assign(targets=[Name(id='basename', ctx=Store())], value=Call(func=Attribute(value=Attribute(value=Attribute(" \
+            "value=Name(id='node', ctx=Load()), attr='__class__', ctx=Load()), attr='__name__', ctx=Load()), attr='lower', " \
+            "ctx=Load()), args=[], keywords=[]))"
+    if ast.dump(body[0]).replace(", type_comment=None", "") != want0 and ast.dump(body[0]) != want0:
+        raise Refusal(item, "basename is not node.__class__.__name__.lower()")
+    want1 = "Assign(targets=[Name(id='id', ctx=Store())], value=Subscript(value=Name(id='counts', ctx=Load()), " \
+            "slice=Name(id='basename', ctx=Load()), ctx=Load()))"
+    if ast.dump(body[1]) != want1:
+        raise Refusal(item, "id is not counts[basename]")
+    st2, st3, st4 = body[2], body[3], body[4]
+    if not (isinstance(st2, ast.Assign) and len(st2.targets) == 1 and isinstance(st2.targets[0], ast.Name) and st2.targets[0].id == "name"):
+        raise Refusal(item, "third statement is not `name = ...`")
+    if not (isinstance(st3, ast.AugAssign) and isinstance(st3.op, ast.Add) and ast.dump(st3.target) ==
+            "Subscript(value=Name(id='counts', ctx=Load()), slice=Name(id='basename', ctx=Load()), ctx=Store())"
+            and isinstance(st3.value, ast.Constant) and isinstance(st3.value.value, int) and not isinstance(st3.value.value, bool)):
+        raise Refusal(item, "fourth statement is not `counts[basename] += <int literal>`")
+    if not (isinstance(st4, ast.Return) and isinstance(st4.value, ast.Name) and st4.value.id == "name"):
+        raise Refusal(item, "fifth statement is not `return name`")
+    # the counter the names are drawn from starts empty: `counts = Counter()` in from_list
+    starts = [n for n in fl.body if isinstance(n, ast.Assign) and len(n.targets) == 1 and isinstance(n.targets[0], ast.Name)
+              and n.targets[0].id == "counts"]
+    if len(starts) != 1 or ast.dump(starts[0].value) != "Call(func=Name(id='Counter', ctx=Load()), args=[], keywords=[])":
+        raise Refusal(item, "counts is not initialised with Counter()")
 
-ITEMS = {"T1": t1_fields, "T2": t2_whitelist, "T3": t3_file_modes, "T4": t4_conv_axis, "T5": t5_flatten, "T6": t6_lif, "T7": t7_cuba}
+    def sx(n):
+        """string-valued expression over basename : String, id : Nat"""
+        if isinstance(n, ast.Constant) and isinstance(n.value, str):
+            return lean_str(n.value)
+        if isinstance(n, ast.JoinedStr):
+            parts = [sx(v) for v in n.values]
+            return "(" + " ++ ".join(parts) + ")" if parts else '""'
+        if isinstance(n, ast.FormattedValue):
+            if n.conversion != -1 or n.format_spec is not None:
+                raise Refusal(item, "format specification / conversion in the f-string")
+            return sx(n.value)
+        if isinstance(n, ast.Name) and n.id == "basename":
+            return "basename"
+        if isinstance(n, ast.Name) and n.id == "id":
+            return "(toString id)"
+        if isinstance(n, ast.Call) and isinstance(n.func, ast.Name) and n.func.id == "str" and len(n.args) == 1 and not n.keywords:
+            return sx(n.args[0])
+        if isinstance(n, ast.BinOp) and isinstance(n.op, ast.Add):
+            if isinstance(n.left, ast.Name) and n.left.id == "id" and isinstance(n.right, ast.Constant) and isinstance(n.right.value, int):
+                return f"(toString (id + {n.right.value}))"
+            return f"({sx(n.left)} ++ {sx(n.right)})"
+        if isinstance(n, ast.IfExp):
+            t = n.test
+            if not (isinstance(t, ast.Compare) and len(t.ops) == 1 and isinstance(t.left, ast.Name) and t.left.id == "id"
+                    and isinstance(t.comparators[0], ast.Constant) and isinstance(t.comparators[0].value, int)
+                    and not isinstance(t.comparators[0].value, bool) and t.comparators[0].value >= 0):
+                raise Refusal(item, "condition in the f-string is not `id <op> <non-negative int literal>`")
+            op = {ast.Gt: ">", ast.GtE: "≥", ast.Lt: "<", ast.LtE: "≤", ast.Eq: "=", ast.NotEq: "≠"}.get(type(t.ops[0]))
+            if op is None:
+                raise Refusal(item, "comparison operator in the f-string")
+            return f"(if id {op} {t.comparators[0].value} then {sx(n.body)} else {sx(n.orelse)})"
+        raise Refusal(item, f"expression in the naming f-string: {ast.dump(n)[:80]}")
+
+    expr = sx(st2.value)
+    txt = HEADER + f"""
+namespace NirVerif.Generated
+
+/-- `unique_node_name` inside `NIRGraph.from_list` (nir/ir/graph.py): the name given to a node whose lower-cased class
+name is `basename` when `id` nodes of that class have been named before it -/
+def uniqueNameGen (basename : String) (id : Nat) : String :=
+  {expr}
+
+/-- `counts[basename] += …` after each name; the counter starts empty (`Counter()`) -/
+def nameCounterStep : Nat := {st3.value.value}
+
+end NirVerif.Generated
+"""
+    return {"UniqueName.lean": txt}
+
+
+
+ITEMS = {"T1": t1_fields, "T2": t2_whitelist, "T3": t3_file_modes, "T4": t4_conv_axis, "T5": t5_flatten, "T6": t6_lif, "T7": t7_cuba, "T8": t8_unique_name}
 
 
 def regenerate(out_dir=OUT, items=None):
